@@ -92,6 +92,19 @@ def biased_history(rng, al, length):
     ]
     for sh in rng.sample(shapes, rng.choice([1, 2, 2])):
         extra += sh
+    if rng.random() < 0.5 and al.nvars >= 2:
+        # a condition first added with an annotation, then again bare in one batch with an equality that pins a variable
+        # (duplicates are dropped from the batch; what is recorded and what is replaced must stay paired)
+        z = al.v(1)
+        cond = [rng.choice(["ugt", "ult", "ne"]), x, al.k()]
+        extra += [
+            {"op": "add", "s": 0, "cons": [["eq", z, ["add", x, ["bvv", 1, al.w]]]]},
+            {"op": "add", "s": 0, "cons": [cond], "ann": [0]},
+            {"op": "add", "s": 0, "cons": [cond, ["eq", x, k]] if rng.random() < 0.85 else [["eq", x, k], cond]},
+            {"op": "eval", "s": 0, "e": z, "n": 5, "extra": []},
+            {"op": "max", "s": 0, "e": z, "signed": False, "extra": []},
+            {"op": "satisfiable", "s": 0, "extra": []},
+        ]
     if rng.random() < 0.25:
         # a variable pinned to a constant (it gets replaced), a contradiction somewhere else, and questions in which the
         # pinned variable is the *value* asked about, or in which everything asked about is replaced away
